@@ -190,7 +190,7 @@ pub fn case_writer(ctx: &mut Ctx, max_write: &str, max_keep: &str, keep_age: &st
                     else { LogEvent::new(Level::Info, vec![tag("n", n), tag("pad", "p".repeat(*pad))]) };
                 sizes.push(line_len(&ev));
                 if sender.send(ev).is_err() { alive = false; break; }
-                if i % 16 == 15 { peak = peak.max(total(&dir)); }
+                if i % 16 == 15 || seg.len() < 64 { std::thread::sleep(Duration::from_millis(if seg.len() < 64 { 4 } else { 0 })); peak = peak.max(total(&dir)); }
             }
             drop(sender);
             // the writer thread is detached: wait until the last event is on disk (or give up)
@@ -255,6 +255,15 @@ pub fn run(ctx: &mut Ctx) {
             }
         }
         if ctx.mine(idx) { case_set(ctx, &init.join(","), &ops.join(";")); }
+    }
+    // many small files of earlier runs (a quiet service restarted often) and then large events: each event may have to delete
+    // several files to stay within the keep-size
+    for (j, (mw, mk, nold, nev)) in [(65536u64, 131072u64, 40usize, 14usize), (65536, 65536, 25, 9), (131072, 262144, 60, 20)].iter().enumerate() {
+        idx += 1;
+        if !ctx.mine(idx) { continue; }
+        let ex: Vec<String> = (0..*nold).map(|k| format!("{}:{}", 120 + (k * 7) % 150, 3000 - k)).collect();
+        let pads: Vec<String> = (0..*nev).map(|k| (30_000 + (k * 3571 + j * 1000) % 25_000).to_string()).collect();
+        case_writer(ctx, &mw.to_string(), &mk.to_string(), "0", &ex.join(","), &pads.join(","));
     }
     // writer level
     let nw = if ctx.thorough() { 150 } else { 24 };
